@@ -5,13 +5,14 @@ Confirms a seeded change in a scratch worktree of /repo (never in /repo itself):
  still pass with the patch; then runs ./check <prop> against the patched worktree.
 Prints a JSON summary."""
 import json, os, shutil, subprocess, sys, tempfile, xml.etree.ElementTree as ET
+HOME = os.path.dirname(os.path.dirname(os.path.abspath(__file__)))
 
 prop, patch, demo = sys.argv[1:4]
 # some seeds were written against a tree that a later fix: commit has since changed at the very
 # lines they touch; those are verified on their recorded base commit (seeded/bases.json)
 BASES = {}
 try:
-    BASES = json.load(open('/verif/seeded/bases.json'))
+    BASES = json.load(open(os.path.join(HOME, 'seeded', 'bases.json')))
 except Exception:
     pass
 _key = os.path.basename(os.path.dirname(patch)).replace('-out', '') + '/' + ''.join(ch for ch in os.path.basename(patch) if ch.isdigit())
@@ -42,7 +43,7 @@ try:
     res["suite_missing"] = missing[:10]; res["suite_ok"] = not missing
     os.remove(out); os.remove(os.path.join(wt, "_demo.py"))
     env = dict(os.environ, VERIF_REPO=wt, VERIF_NPROC=os.environ.get("VERIF_NPROC", "8"))
-    r = subprocess.run(f"./check {prop}", shell=True, cwd="/verif", env=env, stdout=subprocess.PIPE, stderr=subprocess.STDOUT, text=True)
+    r = subprocess.run(f"./check {prop}", shell=True, cwd=HOME, env=env, stdout=subprocess.PIPE, stderr=subprocess.STDOUT, text=True)
     res["check_rc"] = r.returncode
     res["check_lines"] = [l for l in r.stdout.splitlines() if l.startswith(("VIOLATION", "KNOWN-FINDING", "["))][-6:]
     for l in res["check_lines"]:
